@@ -2,7 +2,7 @@
    for ONE batch member; ProofsLoop.v lifts it to the batched loop with its shared guard. *)
 From mathcomp Require Import all_ssreflect all_algebra.
 From mathcomp Require Import ring zify.
-Require Import C10.Model C10.ProofsBase.
+Require Import C10.Model C10.ProofsBase C10.ProofsPerm.
 Set Implicit Arguments.
 Unset Strict Implicit.
 Unset Printing Implicit Defensive.
@@ -163,18 +163,19 @@ have Hset_sz (row : seq R) : size (set_nth [::] (pcL s) k row) = max_iter.
 case: ifP => Hlast.
 - (* the Schur update of the tail *)
   set mf := (fun i : nat => _ / _).
-  have Hmf i : mf i = newf k s i.
-    rewrite /mf /newf Hpiv; congr (_ / _).
+  have Hmf i : (i < n)%N -> mf i = newf k s i.
+    move=> Hi; rewrite /mf /newf Hpiv !(pc_row_get ln K _ Hi); congr (_ / _).
     case: ltnP => [_|]; first by rewrite sumn_E.
     by rewrite leqn0 => /eqP Hk0; rewrite big1 ?subr0 // => -[j Hj]; exfalso; lia.
   split => //=.
   + move=> j Hj; rewrite nth_set_nth /=; case: eqP => _; last exact: (inv_rows HI).
     by rewrite size_scatter HLm_sz.
   + move=> j i; rewrite /Lr /get /= nth_set_nth /=; case: (j =P k) => // _.
-    by rewrite nth_scatter HLm_nth Hmf.
+    rewrite nth_scatter HLm_nth; case: ifP => // Hin.
+    by rewrite Hmf //; apply: (allP Htail_all).
   + split; first by rewrite size_scatter (inv_dsize HI).
-    move=> x; rewrite /vget /= nth_scatter; case: ifP => // _.
-    by rewrite -/(mf x) Hmf expr2.
+    move=> x; rewrite /vget /= nth_scatter; case: ifP => // Hin.
+    by rewrite -/(mf x) Hmf ?expr2 //; apply: (allP Htail_all).
 - (* m + 1 = n: nothing but the pivot entry is written; the tail is empty *)
   have Hnil : drop k.+1 (new_perm k s) = [::].
     by apply: drop_oversize; case: new_perm_is_perm => -> _ _; lia.
